@@ -1041,7 +1041,7 @@ var seeds = [][]string{
 var notCore = []string{
 	"SetStrokeColor(rgba(0,64,0,128))", "SetStrokeJoiner(RoundJoin)", "SetDashes(-0.25, 0.75)", "SetFillRule(NonZero)", "ResetStyle()",
 	"DrawPath(0,0, M0 0L0.5 0)", "ReflectX()", "ReflectY()", "ReflectYAbout(1.5)", "ScaleAbout(2,0.5,1,1)", "ShearAbout(0,0.5,1,2)", "SetZIndex(0)",
-	"CubeTo(1,2,3,2,4,0)", "ArcTo(2,1,30,false,true,4,2)", "Arc(1,1,0,0,90)",
+	"CubeTo(1,2,3,2,4,0)", "ArcTo(2,1,30,false,true,4,2)", "Arc(1,1,0,0,90)", "SetDashes(-0.6, 0.75)",
 }
 
 func letterSets() (full, core []int) {
